@@ -142,6 +142,15 @@ CLAIMS["C03"] = dict(
     technique="subscript role typing, def-use and dominance on the CFG, sibling fact agreement with the batch twin",
     design="DESIGN.md section 4, C03")
 
+CLAIMS["C02"] = dict(
+    text="Digest layout conformance and bookkeeping: the ordered, guarded operand sequences streamed for BIP341/342, BIP143 and the legacy "
+         "sighash equal the spec tables (spec/digests.json) through a binding table; spend_type, output/input type, hash-type validity, "
+         "BIP143 sub-hash selection and the legacy flags are tabulated over their finite domains (hash_type 0..255); the session stepper "
+         "keeps opcode_pos like EvalScript; every asserted execdata init flag is set before a taproot/tapscript session; the two ECDSA "
+         "sites and the tapscript signature budget agree with the reference. Signature validity itself (ECDSA/Schnorr, DER) is not decided.",
+    technique="stream-operand sequence vs spec table, finite-domain tabulation (constant folding over 0..255), must-assign dominance",
+    design="DESIGN.md section 4, C02")
+
 NOT_YET = "check not built yet in this round (see DESIGN.md section 7 build order)"
 
 NA = {
